@@ -568,6 +568,25 @@ class TermDomain(Domain):
             return [(UNIT, it.write_ref(store, args[0], VecV(a.items + (vals[1],))))]
         if (name.endswith("IntoIterator>::into_iter") or name == "std::iter::IntoIterator::into_iter") and isinstance(a, VecV):
             return [(IterV(a.items, 0), store)]
+        # num::range(lo, hi): a counting iterator - modelled by the number of items it still has (hi - lo), which is what a
+        # loop over it counts down
+        if name in ("num::range", "num::iter::range", "num_iter::range") and len(vals) == 2:
+            lo, hi = vals
+            zero = (isinstance(lo, K) and lo.v == 0) or (isinstance(lo, Const) and lo.v == 0)
+            return [(Agg("numrange", None, None, None, (hi if zero else T("-", hi, lo),)), store)]
+        if (name.endswith("IntoIterator>::into_iter") or name == "std::iter::IntoIterator::into_iter") and isinstance(a, Agg) and a.kind == "numrange":
+            return [(a, store)]
+        if name.endswith("as std::iter::Iterator>::next") and isinstance(a, Agg) and a.kind == "numrange":
+            rem = a.field(0)
+            kz = rem.v == 0 if isinstance(rem, (K, Const)) else None
+            outs = []
+            for z, st in ([(kz, store)] if kz is not None else [(b_.v, s_) for b_, s_ in self.fork(store, T("is_zero", rem))]):
+                if z:
+                    outs.append((NONE, st))
+                else:
+                    left = K(rem.v - 1) if isinstance(rem, K) else (Const(rem.v - 1) if isinstance(rem, Const) else T("-", rem, K(1)))
+                    outs.append((some(T("range-item", rem)), it.write_ref(st, args[0], Agg("numrange", None, None, None, (left,)))))
+            return outs
         if name == "<std::vec::IntoIter<T, A> as std::iter::Iterator>::next" and isinstance(a, IterV):
             if a.pos < len(a.items):
                 return [(some(a.items[a.pos]), it.write_ref(store, args[0], IterV(a.items, a.pos + 1)))]
